@@ -1,6 +1,6 @@
 (* Codec: the obligations that are re-evaluated on the freshly translated programs. *)
 From NV Require Import Lib.Base Codec.Lang Codec.Def Codec.Sem Codec.Total Codec.LoopLemmas Codec.Dispatch Codec.DispatchProofs
-  Codec.WF Codec.Cost Codec.RoundTrip Codec.SpecTable Codec.SpecProofs Codec.SpecDecode Codec.GenDefs Spec.TS24501Tables
+  Codec.WF Codec.Cost Codec.Stmt Codec.StmtProofs Codec.RoundTrip Codec.DecodeWF Codec.SpecTable Codec.SpecProofs Codec.SpecDecode Codec.GenDefs Spec.TS24501Tables
   Gen.GenMsgs Gen.GenTypes Gen.GenDispatch.
 From Coq Require Import String.
 Open Scope N_scope.
@@ -118,3 +118,58 @@ Proof.
   pose proof (worst_struct_le defs p Hin) as Hws. change (worst_struct_of defs) with worst_struct in Hws.
   destruct (decode_cost_bound (snd p) bs W Hb) as (A & B). split; [exact A|]. nia.
 Qed.
+
+(* ---------- the transliterated programs, run statement by statement (Codec/Stmt.v) ---------- *)
+Lemma all_stmt_ready : forallb (stmt_ready nas_types) all_msgs = true.
+Proof. vm_compute. reflexivity. Qed.
+
+Lemma msg_ready g : In g all_msgs -> stmt_ready nas_types g = true.
+Proof. intro H. pose proof all_stmt_ready as W. rewrite forallb_forall in W. exact (W g H). Qed.
+
+Lemma msg_in_defs g : In g all_msgs -> In (g_name g, def_of nas_types g) defs.
+Proof. intro H. unfold defs. apply in_map_iff. exists g. split; [reflexivity|exact H]. Qed.
+
+(* every generated Decode* / Encode* function computes decode_def / encode_def of its definition *)
+Lemma generated_decoder g bs : In g all_msgs -> exec_dec nas_types g bs = decode_def (def_of nas_types g) bs.
+Proof. intro H. apply exec_dec_is_decode_def. apply msg_ready. exact H. Qed.
+
+Lemma generated_encoder g m : In g all_msgs -> exec_enc nas_types g m = encode_def (def_of nas_types g) m.
+Proof. intro H. apply exec_enc_is_encode_def. apply msg_ready. exact H. Qed.
+
+Lemma msg_wf g : In g all_msgs -> wf_defb (def_of nas_types g) = true.
+Proof. intro H. pose proof all_wf as W. rewrite forallb_forall in W. exact (W _ (msg_in_defs g H)). Qed.
+Lemma msg_rt g : In g all_msgs -> rt_defb (def_of nas_types g) = true.
+Proof. intro H. pose proof all_rt as W. rewrite forallb_forall in W. exact (W _ (msg_in_defs g H)). Qed.
+Lemma msg_spec g : In g all_msgs -> spec_defb (def_of nas_types g) = true.
+Proof. intro H. pose proof all_spec as W. rewrite forallb_forall in W. exact (W _ (msg_in_defs g H)). Qed.
+
+(* the properties, restated on the programs themselves *)
+Lemma program_decode_total g bs : In g all_msgs -> is_total (exec_dec nas_types g bs).
+Proof. intro H. rewrite (generated_decoder g bs H). apply decode_total. apply msg_wf. exact H. Qed.
+
+Lemma program_roundtrip g m : In g all_msgs -> wf_msgb (def_of nas_types g) m = true ->
+  exists bs, exec_enc nas_types g m = Ok bs /\ exec_dec nas_types g bs = Ok m.
+Proof.
+  intros H Hw. destruct (roundtrip _ m (msg_rt g H) Hw) as (bs & A & B).
+  exists bs. rewrite (generated_encoder g m H), (generated_decoder g bs H). split; assumption.
+Qed.
+
+Lemma program_reencode_stable g bs m : In g all_msgs -> bytes_ok bs -> exec_dec nas_types g bs = Ok m ->
+  exists bs', exec_enc nas_types g m = Ok bs' /\ exec_dec nas_types g bs' = Ok m.
+Proof.
+  intros H Hb Hd. rewrite (generated_decoder g bs H) in Hd.
+  destruct (reencode_stable _ bs m (msg_rt g H) Hb Hd) as (bs' & A & B).
+  exists bs'. rewrite (generated_encoder g m H), (generated_decoder g bs' H). split; assumption.
+Qed.
+
+Lemma program_decode_is_table_lookup g bs : In g all_msgs -> bytes_ok bs ->
+  match exec_dec nas_types g bs with
+  | Ok m => spec_decode (abstract (def_of nas_types g)) bs = Ok (proj_msg (def_of nas_types g) m)
+  | Err => spec_decode (abstract (def_of nas_types g)) bs = Err
+  | _ => False
+  end.
+Proof. intros H Hb. rewrite (generated_decoder g bs H). apply decode_agrees_with_spec; [apply msg_spec; exact H|exact Hb]. Qed.
+
+Lemma program_format g m : In g all_msgs -> wf_msgb (def_of nas_types g) m = true ->
+  exec_enc nas_types g m = Ok (spec_format (abstract (def_of nas_types g)) m).
+Proof. intros H Hw. rewrite (generated_encoder g m H). apply format_eq; [apply msg_spec; exact H|exact Hw]. Qed.
